@@ -91,10 +91,159 @@ Proof.
   destruct H as [H1 H2]. destruct (k =? k') eqn:E; [lia|]. apply (IH _ H2). lia.
 Qed.
 
-(* scanning seq, seq+1, ... over a sorted list whose keys are >= seq *)
-Lemma find_loop_eq fuel : forall m seq,
-  asc seq (m_ent m) -> below (m_end m) (m_ent m) -> m_begin m <= seq ->
-  (Z.to_nat (m_end m - seq) <= fuel)%nat ->
-  am_find_loop fuel m seq = ent_first (fun e => snd e >=? 0) (m_ent m).
+Lemma ent_first_none p l : Forall (fun e => p e = false) l -> ent_first p l = None.
+Proof. induction 1 as [|e tl He _ IH]; cbn [ent_first]; [reflexivity|]. rewrite He. exact IH. Qed.
+
+(* the slot of seq holds a time >= 0: it is the first entry at or after seq *)
+Lemma ent_first_hit seq : forall lo l v, asc lo l -> ent_get seq l = v -> 0 <= v ->
+  ent_first (fun e => (seq <=? fst e) && (snd e >=? 0)) l = Some (seq, v).
 Proof.
-Abort.
+  intros lo l; revert lo; induction l as [|[k v'] tl IH]; intros lo v Ha Hg Hv; cbn [ent_get ent_first asc fst snd] in *; [lia|].
+  destruct Ha as [H1 H2]. destruct (seq =? k) eqn:E.
+  - assert (seq = k) by lia. subst k v'. replace (seq <=? seq) with true by lia.
+    replace (v >=? 0) with true by lia. reflexivity.
+  - destruct (seq <=? k) eqn:E2.
+    + rewrite (ent_get_absent seq (k + 1) tl H2) in Hg by lia. lia.
+    + cbn [andb]. eapply IH; eauto.
+Qed.
+
+(* the slot of seq is empty or negative: searching from seq or from seq+1 is the same *)
+Lemma ent_first_skip seq : forall lo l, asc lo l -> ent_get seq l < 0 ->
+  ent_first (fun e => (seq <=? fst e) && (snd e >=? 0)) l =
+  ent_first (fun e => (seq + 1 <=? fst e) && (snd e >=? 0)) l.
+Proof.
+  intros lo l; revert lo; induction l as [|[k v'] tl IH]; intros lo Ha Hg; cbn [ent_get ent_first asc fst snd] in *; [reflexivity|].
+  destruct Ha as [H1 H2]. destruct (seq =? k) eqn:E.
+  - assert (seq = k) by lia. subst k. replace (v' >=? 0) with false by lia. rewrite !andb_false_r.
+    apply (IH _ H2). rewrite (ent_get_absent seq (seq + 1) tl H2) by lia. lia.
+  - replace (seq + 1 <=? k) with (seq <=? k) by lia.
+    destruct ((seq <=? k) && (v' >=? 0)); [reflexivity|]. apply (IH _ H2). exact Hg.
+Qed.
+
+Lemma find_loop_eq fuel : forall m seq,
+  asc (m_begin m) (m_ent m) -> below (m_end m) (m_ent m) -> m_begin m <= seq ->
+  (Z.to_nat (m_end m - seq) <= fuel)%nat ->
+  am_find_loop fuel m seq = ent_first (fun e => (seq <=? fst e) && (snd e >=? 0)) (m_ent m).
+Proof.
+  induction fuel as [|fuel IH]; intros m seq Ha Hb Hs Hf; cbn [am_find_loop].
+  - symmetry. apply ent_first_none. eapply Forall_impl; [|exact Hb]. cbn beta. intros e He.
+    replace (seq <=? fst e) with false by lia. reflexivity.
+  - destruct (seq <? m_end m) eqn:E.
+    + assert (Hget : am_get m seq = ent_get seq (m_ent m)).
+      { unfold am_get. replace ((seq <? m_begin m) || (seq >=? m_end m)) with false by lia. reflexivity. }
+      rewrite Hget. destruct (ent_get seq (m_ent m) >=? 0) eqn:Ev.
+      * symmetry. eapply ent_first_hit; eauto. lia.
+      * rewrite (ent_first_skip seq _ _ Ha) by lia. apply IH; auto; lia.
+    + symmetry. apply ent_first_none. eapply Forall_impl; [|exact Hb]. cbn beta. intros e He.
+      replace (seq <=? fst e) with false by lia. reflexivity.
+Qed.
+
+(* FindNextAtOrAfter as coded = the closed form the recorder model runs *)
+Theorem am_find_go_eq m sn : am_inv m -> am_find_go m sn = am_find m sn.
+Proof.
+  intros (Ha & Hb & Hle & _). unfold am_find_go, am_find. cbv zeta.
+  apply find_loop_eq; auto.
+  unfold am_clamp. destruct (sn <? m_begin m) eqn:E1; [lia|]. destruct (m_end m <? sn) eqn:E2; lia.
+Qed.
+
+(* ---- RemoveOldPackets: the loop as coded equals the closed form ---- *)
+Lemma ent_from_all b : forall lo l, asc lo l -> b <= lo -> ent_from b l = l.
+Proof.
+  intros lo l; revert lo; induction l as [|e tl IH]; intros lo Ha Hb; cbn [ent_from filter asc] in *; [reflexivity|].
+  destruct Ha as [H1 H2]. replace (b <=? fst e) with true by lia. f_equal. apply (IH _ H2). lia.
+Qed.
+
+Lemma ent_from_from a b l : a <= b -> ent_from b (ent_from a l) = ent_from b l.
+Proof.
+  intros Hab. unfold ent_from. induction l as [|e tl IH]; cbn [filter]; [reflexivity|].
+  destruct (a <=? fst e) eqn:E1; cbn [filter]; destruct (b <=? fst e) eqn:E2; try rewrite IH; try reflexivity. lia.
+Qed.
+
+(* the young entries are not affected by dropping the slot [b] when that slot is old *)
+Lemma ent_first_young_from limit b : forall lo l, asc lo l -> b <= lo -> ent_get b l <= limit ->
+  ent_first (fun e => snd e >? limit) (ent_from (b + 1) l) = ent_first (fun e => snd e >? limit) l.
+Proof.
+  intros lo l Ha Hb Hg. destruct l as [|[k v] tl]; [reflexivity|].
+  cbn [asc fst] in Ha. destruct Ha as [H1 H2]. cbn [ent_from filter fst]. fold (ent_from (b + 1) tl).
+  rewrite (ent_from_all (b + 1) (k + 1) tl H2) by lia.
+  destruct (b + 1 <=? k) eqn:E; [reflexivity|].
+  assert (k = b) by lia. subst k. cbn [ent_get] in Hg. rewrite Z.eqb_refl in Hg.
+  cbn [ent_first snd]. replace (v >? limit) with false by lia. reflexivity.
+Qed.
+
+Lemma ent_first_key_ge p : forall lo l k v, asc lo l -> ent_first p l = Some (k, v) -> lo <= k.
+Proof.
+  intros lo l; revert lo; induction l as [|e tl IH]; intros lo k v Ha H; cbn [ent_first asc] in *; [discriminate|].
+  destruct Ha as [H1 H2]. destruct (p e); [inversion H; subst; cbn [fst] in H1; exact H1|].
+  specialize (IH _ _ _ H2 H). lia.
+Qed.
+
+Lemma remove_loop_eq fuel : forall m checkTo limit,
+  asc (m_begin m) (m_ent m) -> checkTo <= m_end m -> -1 <= limit ->
+  (Z.to_nat (checkTo - m_begin m) <= fuel)%nat ->
+  am_remove_loop fuel m checkTo limit =
+  (if m_begin m <? checkTo then
+     let nb := match ent_first (fun e => snd e >? limit) (m_ent m) with
+               | Some (k, _) => Z.min k checkTo
+               | None => checkTo
+               end in
+     mkAmap (m_alloc m) nb (m_end m) (ent_from nb (m_ent m))
+   else m).
+Proof.
+  induction fuel as [|fuel IH]; intros m checkTo limit Ha Hc Hl Hf; cbn [am_remove_loop].
+  - replace (m_begin m <? checkTo) with false by lia. reflexivity.
+  - destruct (m_begin m <? checkTo) eqn:Eb; cbn [andb]; [|reflexivity].
+    assert (Hget : am_get m (m_begin m) = ent_get (m_begin m) (m_ent m)).
+    { unfold am_get. replace ((m_begin m <? m_begin m) || (m_begin m >=? m_end m)) with false by lia. reflexivity. }
+    rewrite Hget. destruct (ent_get (m_begin m) (m_ent m) <=? limit) eqn:Eold.
+    + (* the slot at begin is old: step, then the closed form of the rest *)
+      rewrite IH; cbn [m_begin m_end m_ent m_alloc]; auto; try lia.
+      2:{ pose proof (asc_from (m_begin m + 1) _ _ Ha) as H. eapply asc_weaken; [|exact H]. lia. }
+      rewrite (ent_first_young_from limit (m_begin m) (m_begin m) (m_ent m) Ha) by lia.
+      cbv zeta.
+      destruct (ent_first (fun e => snd e >? limit) (m_ent m)) as [[k v]|] eqn:Ey.
+      * assert (Hk : m_begin m + 1 <= k).
+        { pose proof (ent_first_key_ge _ _ _ _ _ Ha Ey) as Hge.
+          destruct (k =? m_begin m) eqn:Ek; [|lia]. assert (k = m_begin m) by lia. subst k.
+          (* the first young entry would sit in the old slot *)
+          destruct (m_ent m) as [|[k0 v0] tl]; [discriminate|]. cbn [asc fst] in Ha. destruct Ha as [Ha1 Ha2].
+          cbn [ent_first snd] in Ey. cbn [ent_get] in Eold.
+          destruct (v0 >? limit) eqn:Ev.
+          - inversion Ey; subst. rewrite Z.eqb_refl in Eold. lia.
+          - pose proof (ent_first_key_ge _ _ _ _ _ Ha2 Ey). lia. }
+        destruct (m_begin m + 1 <? checkTo) eqn:E1.
+        -- rewrite ent_from_from by lia. reflexivity.
+        -- replace (Z.min k checkTo) with (m_begin m + 1) by lia. reflexivity.
+      * destruct (m_begin m + 1 <? checkTo) eqn:E1.
+        -- rewrite ent_from_from by lia. reflexivity.
+        -- replace checkTo with (m_begin m + 1) by lia. reflexivity.
+    + (* young (or the limit is below every time): the loop stops, the closed form does nothing *)
+      cbv zeta. destruct (m_ent m) as [|[k0 v0] tl] eqn:Eent; [cbn [ent_get] in Eold; lia|].
+      pose proof Ha as Ha'. cbn [asc fst] in Ha'. destruct Ha' as [Ha1 Ha2].
+      cbn [ent_get] in Eold. destruct (m_begin m =? k0) eqn:Ek.
+      * assert (k0 = m_begin m) by lia. subst k0. cbn [ent_first snd]. replace (v0 >? limit) with true by lia.
+        replace (Z.min (m_begin m) checkTo) with (m_begin m) by lia.
+        rewrite (ent_from_all (m_begin m) (m_begin m) _ Ha) by lia.
+        destruct m as [al bg en ents]; cbn [m_alloc m_begin m_end m_ent] in *. subst ents. reflexivity.
+      * rewrite (ent_get_absent (m_begin m) (k0 + 1) tl Ha2) in Eold by lia. lia.
+Qed.
+
+Theorem am_remove_old_go_eq m sn limit : am_inv m -> -1 <= limit ->
+  am_remove_old_go m sn limit = am_remove_old m sn limit.
+Proof.
+  intros (Ha & Hb & Hle & _) Hl. unfold am_remove_old_go, am_remove_old. cbv zeta.
+  apply remove_loop_eq; auto; lia.
+Qed.
+
+Lemma am_remove_old_inv m sn limit : am_inv m -> am_inv (am_remove_old m sn limit).
+Proof.
+  intros (Ha & Hb & Hle & Hw). unfold am_remove_old. cbv zeta.
+  destruct (m_begin m <? Z.min sn (m_end m)) eqn:E; [|repeat split; auto].
+  set (nb := match ent_first _ _ with Some (k, _) => Z.min k (Z.min sn (m_end m)) | None => Z.min sn (m_end m) end).
+  assert (Hnb : m_begin m <= nb <= m_end m).
+  { unfold nb. destruct (ent_first _ _) as [[k v]|] eqn:Ey; [|lia].
+    pose proof (ent_first_key_ge _ _ _ _ _ Ha Ey). lia. }
+  repeat split; cbn [m_begin m_end m_ent]; try lia.
+  - pose proof (asc_from nb _ _ Ha) as H. eapply asc_weaken; [|exact H]. lia.
+  - apply below_from, Hb.
+Qed.
